@@ -42,7 +42,6 @@ IdTypeOf(s) == CASE s \in {"purl"} -> 1
                  [] s \in {"gitoid"} -> 4
                  [] OTHER -> 0
 
-NodesAt(g, I) == {g.nodes[i] : i \in I}
 SameSets(a, b) == Ids(a) = Ids(b) /\ Roots(a) = Roots(b) /\ Triples(a) = Triples(b)
 
 Judge(e) ==
@@ -94,7 +93,7 @@ Judge(e) ==
            \cup WFc(e, {g}, r, TRUE) \cup Frame(e, {e.out})
        [] e.op = "ByPurlType" ->
          LET g == reg[e.a] r == P[e.out] S == Rng(e.sel) IN
-           (IF Ids(r) # S \/ ~UniqueIds(r) \/ ~(NodeSet(r) \subseteq NodeSet(g)) THEN {"bypurltype.nodes"}
+           (IF Ids(r) # S \/ (UniqueIds(g) /\ ~UniqueIds(r)) \/ ~(NodeSet(r) \subseteq NodeSet(g)) THEN {"bypurltype.nodes"}
             ELSE IF ~(Triples(r) \subseteq Induced(g, S)) THEN {"bypurltype.edges"}
             ELSE IF ~(Roots(r) \subseteq S) THEN {"bypurltype.roots"} ELSE {})
            \cup WFc(e, {g}, r, TRUE) \cup Frame(e, {e.out})
@@ -122,7 +121,11 @@ Judge(e) ==
            \cup Frame(e, {})
        [] e.op = "GetRootNodes" ->
          LET g == reg[e.a] I == RootNodeIdx(g) IN
-           (IF BagOf(e.val) = BagOf([i \in 1..Cardinality(I) |-> g.nodes[SetToSeq(I)[i]]]) THEN {} ELSE {"lookup.roots"})
+           \* with repeated node identifiers (ill-formed list) any non-empty choice among the nodes sharing a root id is accepted
+           (IF UniqueIds(g)
+            THEN (IF BagOf(e.val) = BagOf([i \in 1..Cardinality(I) |-> g.nodes[SetToSeq(I)[i]]]) THEN {} ELSE {"lookup.roots"})
+            ELSE (IF Rng(e.val) \subseteq NodesAt(g, I) /\ {n.id : n \in Rng(e.val)} = {g.nodes[i].id : i \in I}
+                  THEN {} ELSE {"lookup.roots"}))
            \cup Frame(e, {})
        [] e.op = "Match" ->
          LET g == reg[e.a] m == Match(g, e.p) IN
@@ -152,6 +155,12 @@ Judge(e) ==
            ELSE IF SameSets(reg[e.a], reg[e.b]) /\ NodeSet(reg[e.a]) = NodeSet(reg[e.b]) THEN {} ELSE {"law." \o e.law}
        [] e.op = "LawSameClean" ->
            IF SameSets(reg[e.a], Clean(reg[e.b])) THEN {} ELSE {"law." \o e.law}
+       [] e.op = "LawSameCleanStrict" ->
+           IF SameSets(reg[e.a], CleanStrict(reg[e.b])) THEN {} ELSE {"law." \o e.law}
+       [] e.op = "LawSameIfClosed" ->
+           \* associativity is implied by the set definition of union only when no operand has an edge end that
+           \* is missing in it but present in another operand; it is asserted for edge-closed operands
+           IF (\A i \in DOMAIN e.c : EdgeClosed(reg[e.c[i]])) => SameSets(reg[e.a], reg[e.b]) THEN {} ELSE {"law." \o e.law}
        [] e.op = "LawIds" ->
            IF Ids(reg[e.a]) = Ids(reg[e.b]) THEN {} ELSE {"law." \o e.law}
        [] e.op = "LawEmpty" ->
